@@ -1,13 +1,17 @@
 import S3V.Thm.SigV4Verdict
+import S3V.Spec.PostPolicy
 /-!
 # C10 (signature clause) — a POST form is accepted only if its policy is signed (property theorems only)
 
-The other clauses of C10 (policy conditions, field mapping, exact content) are in `S3V/Props/C10.lean`.
+The clause "only while the upload satisfies that policy" is stated here in full (`C10_post_policy_enforced_full`), is
+FALSE for the code (which never decodes the policy) and is refuted in `S3V/Findings/C10.lean`; what is proved of it is
+`C10_post_policy_partial`. Field mapping and exact content are in `S3V/Props/C10.lean`.
 -/
 namespace S3V.C10
 open S3V S3V.SigV4
 
-/-- the verdict logic of `v4_check_post_signature`, exactly, for an arbitrary MAC: the form is accepted as
+/-- the verdict logic of `v4_check_post_signature`, exactly, for an arbitrary MAC (the SIGNATURE clause of C10; the
+    policy-compliance clause is missing from the code, see `C10_post_policy_enforced_full`): the form is accepted as
     (access key, region, service) iff the five signature fields are present (the last duplicate of a name counts),
     the policy is base64, the algorithm is AWS4-HMAC-SHA256, credential and date parse, the key is known and the
     `x-amz-signature` field is the specified signature of the base64 policy text under that key's secret and the
@@ -43,5 +47,62 @@ theorem C10_post_scope_is_credential_scope (hmac : Bytes → Bytes → Bytes) (l
 /-- without an authentication provider nothing is accepted -/
 theorem C10_post_no_provider (hmac : Bytes → Bytes → Bytes) (fields : List (Bytes × Bytes)) :
     v4CheckPostSignature hmac none fields = .err .NotImplemented := rfl
+
+/-! ## the policy-compliance clause of C10 -/
+
+/-- FULL statement of "accepted ⇒ policy-compliant": whenever `v4_check_post_signature` accepts a form, the policy
+    that form carries (the `policy` field the signature was verified on) has not expired at `now`, every condition it
+    places on bucket, key, the other form fields and the content length holds, and every form field is covered
+    (`PostPolicy.PolicyCompliant`, from the AWS POST-policy document). FALSE for the code: the policy is only checked
+    to be base64 and used as the string to sign; it is never decoded. Refuted in `S3V/Findings/C10.lean`
+    (`C10_post_policy_enforced_full_false`), exercised by component `sigv4post` (classes `post-policy-*-accepted`). -/
+def C10_post_policy_enforced_full : Prop :=
+  ∀ (hmac : Bytes → Bytes → Bytes) (look : Bytes → Option Bytes) (rawFields : List (Bytes × Bytes)) (bucket : Bytes)
+    (fileLen : Nat) (now : Int) (ak region service : Bytes),
+    v4CheckPostSignature hmac (some look) (multipartFields rawFields) = .accept ak region service →
+    ∃ policyB64, findFieldValue (multipartFields rawFields) b!"policy" = some policyB64 ∧
+      PostPolicy.formCompliant now policyB64 rawFields bucket fileLen = true
+
+/-- what IS proved of that clause: acceptance implies that the policy text is well-formed base64 and signed — nothing
+    about its content (expiration, conditions, coverage), which is the missing clause -/
+theorem C10_post_policy_partial (hmac : Bytes → Bytes → Bytes) (look : Bytes → Option Bytes)
+    (rawFields : List (Bytes × Bytes)) (ak region service : Bytes)
+    (h : v4CheckPostSignature hmac (some look) (multipartFields rawFields) = .accept ak region service) :
+    ∃ policyB64, findFieldValue (multipartFields rawFields) b!"policy" = some policyB64 ∧ isBase64 policyB64 = true := by
+  obtain ⟨policy, _, _, _, _, hc, _⟩ := (post_accept_iff hmac look (multipartFields rawFields) ak region service).mp h
+  exact ⟨policy, hc.hasPolicy, hc.isB64⟩
+
+/-! non-vacuity of `PolicyCompliant`: a compliant form satisfies it, each variant does not -/
+
+/-- base64 of `{''expiration'':''2099-01-01T00:00:00.000Z'',''conditions'':[{''bucket'':''bkt''},[''starts-with'',''$key'',''up/''],[''eq'',''$Content-Type'',''text/plain''],{''x-amz-meta-note'':''n''},{''x-amz-algorithm'':''AWS4-HMAC-SHA256''},{''x-amz-credential'':''AK/20130524/r/s3/aws4_request''},{''X-Amz-Date'':''20130524T000000Z''},[''content-length-range'',1,10]]}` -/
+def examplePolicyB64 : Bytes := b!"eyJleHBpcmF0aW9uIjoiMjA5OS0wMS0wMVQwMDowMDowMC4wMDBaIiwiY29uZGl0aW9ucyI6W3siYnVja2V0IjoiYmt0In0sWyJzdGFydHMtd2l0aCIsIiRrZXkiLCJ1cC8iXSxbImVxIiwiJENvbnRlbnQtVHlwZSIsInRleHQvcGxhaW4iXSx7IngtYW16LW1ldGEtbm90ZSI6Im4ifSx7IngtYW16LWFsZ29yaXRobSI6IkFXUzQtSE1BQy1TSEEyNTYifSx7IngtYW16LWNyZWRlbnRpYWwiOiJBSy8yMDEzMDUyNC9yL3MzL2F3czRfcmVxdWVzdCJ9LHsiWC1BbXotRGF0ZSI6IjIwMTMwNTI0VDAwMDAwMFoifSxbImNvbnRlbnQtbGVuZ3RoLXJhbmdlIiwxLDEwXV19"
+
+def exampleFields : List (Bytes × Bytes) :=
+  [(b!"key", b!"up/a.txt"), (b!"Content-Type", b!"text/plain"), (b!"x-amz-meta-note", b!"n"),
+   (b!"X-Amz-Algorithm", b!"AWS4-HMAC-SHA256"), (b!"x-amz-credential", b!"AK/20130524/r/s3/aws4_request"), (b!"x-amz-date", b!"20130524T000000Z"),
+   (b!"x-ignore-me", b!"whatever"), (b!"Policy", b!"eyJleHBpcmF0aW9uIjoiMjA5OS0wMS0wMVQwMDowMDowMC4wMDBaIiwiY29uZGl0aW9ucyI6W3siYnVja2V0IjoiYmt0In0sWyJzdGFydHMtd2l0aCIsIiRrZXkiLCJ1cC8iXSxbImVxIiwiJENvbnRlbnQtVHlwZSIsInRleHQvcGxhaW4iXSx7IngtYW16LW1ldGEtbm90ZSI6Im4ifSx7IngtYW16LWFsZ29yaXRobSI6IkFXUzQtSE1BQy1TSEEyNTYifSx7IngtYW16LWNyZWRlbnRpYWwiOiJBSy8yMDEzMDUyNC9yL3MzL2F3czRfcmVxdWVzdCJ9LHsiWC1BbXotRGF0ZSI6IjIwMTMwNTI0VDAwMDAwMFoifSxbImNvbnRlbnQtbGVuZ3RoLXJhbmdlIiwxLDEwXV19"), (b!"x-amz-signature", b!"")]
+
+/-- 2013-05-24T00:00:00Z -/
+def exampleNow : Int := 1369353600
+
+theorem C10_policy_compliant_examples :
+    -- the compliant form (file of 5 bytes, posted to bucket `bkt`)
+    PostPolicy.formCompliant exampleNow examplePolicyB64 exampleFields b!"bkt" 5 = true ∧
+    -- after the expiration instant (2099-01-01T00:00:00Z = 4070908800)
+    PostPolicy.formDefect 4070908801 examplePolicyB64 exampleFields b!"bkt" 5 = some .expired ∧
+    -- another bucket
+    PostPolicy.formDefect exampleNow examplePolicyB64 exampleFields b!"other" 5 = some .exactViolated ∧
+    -- a key outside the prefix
+    PostPolicy.formDefect exampleNow examplePolicyB64 ((b!"KEY", b!"elsewhere/a") :: exampleFields) b!"bkt" 5 =
+      some .startsWithViolated ∧
+    -- file too long / empty
+    PostPolicy.formDefect exampleNow examplePolicyB64 exampleFields b!"bkt" 11 = some .lengthRange ∧
+    PostPolicy.formDefect exampleNow examplePolicyB64 exampleFields b!"bkt" 0 = some .lengthRange ∧
+    -- a field no condition covers
+    PostPolicy.formDefect exampleNow examplePolicyB64 ((b!"acl", b!"public-read") :: exampleFields) b!"bkt" 5 =
+      some .fieldUncovered ∧
+    -- a text that is no policy
+    PostPolicy.formDefect exampleNow b!"bm90IGpzb24=" exampleFields b!"bkt" 5 = some .malformed := by
+  decide +kernel
 
 end S3V.C10
